@@ -599,6 +599,26 @@ func (c *Client) Sync(intersectPoints []pcommon.Point) error {
 		}
 	}
 
+	// Discard signals left over from an earlier sync on this client: when the
+	// application cancels a pipelined sync, every reply still in flight adds
+	// another "cancelled" signal after the sync loop has gone, and a stale one
+	// would end the new loop at once
+	c.lifecycleMutex.Lock()
+	if c.readyForNextBlockChan != nil {
+	drainStaleSignals:
+		for {
+			select {
+			case _, ok := <-c.readyForNextBlockChan:
+				if !ok {
+					break drainStaleSignals
+				}
+			default:
+				break drainStaleSignals
+			}
+		}
+	}
+	c.lifecycleMutex.Unlock()
+
 	// Send initial RequestNext
 	msgRequestNext := NewMsgRequestNext()
 	if err := c.SendMessage(msgRequestNext); err != nil {
